@@ -390,3 +390,23 @@ M('C08', 'seed-partial', R, "    mag01[0] = 0ULL\n    mag01[1] = MATRIX_A\n    m
 M('C08', 'seed-offset', R, "    else:\n        mt_seed(seed)", "    else:\n        mt_seed(seed + time.time())", 'fire', 'R8.5')
 M('C08', 'global-pointer-conditional', S, "        global_simulator = <void*> sim\n", "        if num_species > 1:\n            global_simulator = <void*> sim\n", 'fire', 'R8.6-global-pointer')
 M('C08', 'silent-invalidate-moved', T, "        self.initialized = False\n\n        # Parse the rule by rule type", "        self.initialized = False\n        input_printout = bool(input_printout)\n        # Parse the rule by rule type", 'silent')
+
+# ------------------------------------------------------------------ C16
+M('C16', 'revert-exponential-support', PI, "        if param_value < 0:\n            # outside the support of the exponential distribution\n            return np.inf\n", "", 'fire', 'R16.2-support/exponential')
+M('C16', 'revert-beta-upper', PI, "        if param_value < 0 or param_value > 1:", "        if param_value < 0:", 'fire', 'R16.2-support/beta/x>1')
+M('C16', 'uniform-one-sided', PI, "        if param_value > upper_bound or param_value < lower_bound:\n            return np.inf\n        else:\n            return np.log( 1/(upper_bound - lower_bound) )",
+  "        if param_value > upper_bound:\n            return np.inf\n        else:\n            return np.log( 1/(upper_bound - lower_bound) )", 'fire', 'R16.2-support/uniform/x<lower')
+M('C16', 'gaussian-variance', PI, "np.exp(-0.5*(param_value - mu)**2/sigma**2)", "np.exp(-0.5*(param_value - mu)**2/sigma)", 'fire', 'R16.1-density/gaussian')
+M('C16', 'gamma-rate-as-scale', PI, "np.exp(-1 * beta*param_value)", "np.exp(-1 * param_value/beta)", 'fire', 'R16.1-density/gamma')
+M('C16', 'loguniform-missing-x', PI, "prob = 1/(param_value* (np.log(upper_bound) - np.log(lower_bound)))", "prob = 1/((np.log(upper_bound) - np.log(lower_bound)))", 'fire', 'R16.1-density/log-uniform')
+M('C16', 'lognormal-missing-jacobian', PI, "prob = 1/(param_value * np.sqrt(2*np.pi) * sigma)", "prob = 1/(np.sqrt(2*np.pi) * sigma)", 'fire', 'R16.1-density/log-gaussian')
+M('C16', 'prior-positions-swapped', PI, "        alpha = prior_dict[param_name][1]\n        beta = prior_dict[param_name][2]\n        from scipy import special",
+  "        alpha = prior_dict[param_name][2]\n        beta = prior_dict[param_name][1]\n        from scipy import special", 'fire', 'R16.1-density/beta')
+M('C16', 'dispatch-crossed', PI, "            elif prior_type == 'log-uniform':\n                lp += self.log_uniform_prior(key, value)", "            elif prior_type == 'log-uniform':\n                lp += self.uniform_prior(key, value)", 'fire', 'R16.3-aggregation/dispatch')
+M('C16', 'sum-overwritten', PI, "            elif prior_type == 'gamma':\n                lp += self.gamma_prior(key, value)", "            elif prior_type == 'gamma':\n                lp = self.gamma_prior(key, value)", 'fire', 'R16.3-aggregation')
+M('C16', 'positive-flag-late', PI, "            if 'positive' in self.prior[key] and value  < 0:\n                return np.inf\n            prior_type = self.prior[key][0]",
+  "            prior_type = self.prior[key][0]\n            if 'positive' in self.prior[key] and value  < -1:\n                return np.inf", 'fire', 'R16.3-aggregation/positive-flag')
+M('C16', 'nonfinite-not-rejected', PI, "        if not np.isfinite(lp):\n            return -np.inf\n        else:\n            # Reset to default\n            self.LL_det.set_init_params(self.default_parameters)",
+  "        if np.isnan(lp):\n            return -np.inf\n        else:\n            # Reset to default\n            self.LL_det.set_init_params(self.default_parameters)", 'fire', 'R16.4')
+M('C16', 'silent-exponential-rewrite', PI, "        prob = lambda_p * np.exp(-lambda_p * param_value)", "        prob = np.exp(-param_value * lambda_p) * lambda_p", 'silent')
+M('C16', 'silent-loggaussian-explicit-guard', PI, "        # Using probability density function for log-normal distribution\n", "        if param_value <= 0:\n            return np.inf\n", 'silent')
